@@ -8,8 +8,8 @@
    same function through the combinators the proofs are organised around.
    No proofs here. *)
 Require Import Grits.Base Grits.ModeDefs Grits.Modes Grits.STypes Grits.Infer Grits.Print.
+Require Export Grits.STypesAux.
 
-Definition is_name (t : sty) : bool := match t with TName _ _ => true | _ => false end.
 
 (* reflect.TypeOf(type1) == reflect.TypeOf(type2) *)
 Definition same_ctor (s t : sty) : bool :=
